@@ -223,9 +223,15 @@ def r4_repr_fallback(ctx):
                 if is_repr(a0):
                     reaches = True
                 elif isinstance(a0, ast.Name):
-                    for d in rd.at(n, a0.id):
-                        if isinstance(d.value, ast.AST) and is_repr(d.value):
-                            reaches = True
+                    # through plain copies of the name (a value handed on by an expanded helper)
+                    work = [(n, a0.id, 0)]
+                    while work:
+                        (nd, nm, depth) = work.pop()
+                        for d in rd.at(nd, nm):
+                            if isinstance(d.value, ast.AST) and is_repr(d.value):
+                                reaches = True
+                            elif isinstance(d.value, ast.Name) and d.kind == 'assign' and depth < 3:
+                                work.append((d.node, d.value.id, depth + 1))
     rep.ob('C02.R4', ctx.loc(f, f.node), 'repr(got_eval) -> check_output(got, ...)', reaches and n_repr >= 1,
            'repr of the evaluated value reaches the comparison' if reaches else
            'no repr(got_eval) reaches check_output: the value fallback is gone', anchor=q)
@@ -731,7 +737,15 @@ def r4b_which_text_is_compared(ctx):
                 a0 = c.args[0]
                 vals = [a0]
                 if isinstance(a0, ast.Name) and a0.id != 'got_stdout':
-                    vals = [d.value if isinstance(d.value, ast.AST) else None for d in rd.at(n, a0.id)]
+                    vals = []
+                    work = [(n, a0.id, 0)]
+                    while work:
+                        (nd, nm, depth) = work.pop()
+                        for d in rd.at(nd, nm):
+                            if isinstance(d.value, ast.Name) and d.value.id != 'got_stdout' and d.kind == 'assign' and depth < 3:
+                                work.append((d.node, d.value.id, depth + 1))      # a plain copy: what the copied name holds
+                            else:
+                                vals.append(d.value if isinstance(d.value, ast.AST) else None)
                 kinds = set()
                 for v in vals:
                     if v is None:
